@@ -50,6 +50,7 @@ struct Explorer {
     using Index = pgm::MultidimensionalPGMIndex<D, T, E>;
     using P = Pt<D, T>;
     Run &run; Cn &cn; int prop; const char *cfg;
+    int input_order = 0;   // 0: enumeration order, 1: lexicographic, 2: reverse lexicographic
 
     // spec of a multiset: "cells=<pt>*<mult>;<pt>*<mult>;..."
     static std::string spec_str(const std::vector<std::pair<P, int>> &cells) {
@@ -63,7 +64,7 @@ struct Explorer {
         for (auto &t : mc::split(s, ';')) { auto star = t.find('*'); out.emplace_back(parse_pt<D, T>(t.substr(0, star)), atoi(t.c_str() + star + 1)); }
         return out;
     }
-    std::string case_of(const std::string &spec, const std::string &q) const { return std::string("cfg=") + cfg + " cells=" + spec + " " + q; }
+    std::string case_of(const std::string &spec, const std::string &q) const { return std::string("cfg=") + cfg + " order=" + std::to_string(input_order) + " cells=" + spec + " " + q; }
 
     struct Built { Index *idx; std::vector<P> pts; std::vector<std::pair<T, P>> sorted; };
 
@@ -72,8 +73,12 @@ struct Explorer {
         for (auto &c : cells) for (int i = 0; i < c.second; ++i) b.pts.push_back(c.first);
         if (b.pts.empty()) return false;
         run.set_case(case_of(spec, "(build)"));
+        // the order in which the caller supplies the points is part of the input: as enumerated, lexicographically sorted, or reversed
+        std::vector<P> ordered = b.pts;
+        if (input_order == 1) std::sort(ordered.begin(), ordered.end());
+        else if (input_order == 2) { std::sort(ordered.begin(), ordered.end()); std::reverse(ordered.begin(), ordered.end()); }
         std::vector<typename Index::value_type> tuples;
-        for (auto &p : b.pts) tuples.push_back(to_tuple<D, T>(p));
+        for (auto &p : ordered) tuples.push_back(to_tuple<D, T>(p));
         try { b.idx = new Index(tuples.begin(), tuples.end()); }
         catch (const std::exception &e) { run.violation(case_of(spec, ""), std::string("construction over encodable points threw: ") + e.what()); return false; }
         b.sorted.clear();
@@ -180,12 +185,19 @@ struct Explorer {
             std::vector<std::pair<P, int>> spec_cells;
             for (size_t i = 0; i < C; ++i) spec_cells.emplace_back(cells[i], mults[digit[i]]);
             std::string spec = spec_str(spec_cells);
-            Built b{};
-            if (build(spec_cells, spec, b)) {
-                if (!sampled && digit[C - 1] == 2 && digit[C - 2] == 1) { run.sample(case_of(spec, "*all boxes over the axis values*")); sampled = true; }
-                run_queries(b, box_axis, cont_axis, spec);
-                delete b.idx;
+            for (input_order = 0; input_order < 3; ++input_order) {
+                Built b{};
+                if (build(spec_cells, spec, b)) {
+                    if (!sampled && digit[C - 1] == 2 && digit[C - 2] == 1) { run.sample(case_of(spec, "*all boxes over the axis values*")); sampled = true; }
+                    if (input_order == 0) run_queries(b, box_axis, cont_axis, spec);
+                    else {   // other input orders: the index must be the same, so a thin query slice suffices
+                        if (prop == 13 || prop == 17) { P mn, mx; for (size_t i = 0; i < D; ++i) { mn[i] = box_axis.front(); mx[i] = box_axis.back(); } check_box(b, mn, mx, spec); }
+                        if (prop == 14 || prop == 17) for (auto &c : spec_cells) check_contains(b, c.first, spec);
+                    }
+                    delete b.idx;
+                }
             }
+            input_order = 0;
             if (run.deadline_passed()) return;
             size_t i = fixed.size();
             while (i < C && ++digit[i] == int(mults.size())) { digit[i] = 0; ++i; }
@@ -204,12 +216,14 @@ struct Explorer {
         });
         std::string spec = "grid" + std::to_string(G);
         for (auto &w : window) spec += ";" + pt_str<D, T>(w.first) + "*" + std::to_string(w.second);
+        input_order = int(lo0 % 3);   // the grid's boxes are split over tasks by lo0: vary the input order across them
         Built b{};
-        if (!build(cells, spec, b)) return;
+        if (!build(cells, spec, b)) { input_order = 0; return; }
         if (lo0 == 0) run.sample(case_of(spec, "*all boxes*"));
         std::vector<T> cont_axis = axis; cont_axis.push_back(G); cont_axis.push_back((T(1) << (sizeof(T) * 8 / D - 1)) - 1);
         run_queries(b, axis, cont_axis, spec, lo0);
         delete b.idx;
+        input_order = 0;
     }
 
     // family (d): every length of a run of consecutive misses. One out-of-box cell with multiplicity m1 (and a second one with m2 after
@@ -269,6 +283,7 @@ struct Explorer {
 
     void replay(const std::map<std::string, std::string> &m) {
         std::string spec = m.at("cells");
+        if (m.count("order")) input_order = atoi(m.at("order").c_str());
         if (spec.rfind("large:", 0) == 0) { auto parts = mc::split(spec, ':'); family_large(atoi(parts[3].c_str() + 7), atoi(parts[2].c_str() + 5)); return; }
         std::vector<std::pair<P, int>> cells;
         if (spec.rfind("grid", 0) == 0) {
@@ -419,7 +434,7 @@ int main(int argc, char **argv) {
     mc::Run::EvidenceExtra ev;
     ev.states_counter = "point_multisets_indexed"; ev.transitions_counter = prop == 14 ? "contains_queries_checked" : "box_queries_checked";
     ev.nontrivial_counter = "multisets_with_2plus_distinct_points";
-    ev.rule = "real miss_threshold=64. (a) every multiplicity vector in {0,1,65}^cells over 3x3 (2D) / 2x2x2 (3D) cell universes (65 copies of an out-of-box cell force the bigmin skip), several coordinate sets incl. the largest encodable coordinate; "
+    ev.rule = "real miss_threshold=64; points are supplied in enumeration order, lexicographic order and reverse lexicographic order. (a) every multiplicity vector in {0,1,65}^cells over 3x3 (2D) / 2x2x2 (3D) cell universes (65 copies of an out-of-box cell force the bigmin skip), several coordinate sets incl. the largest encodable coordinate; "
               "(b) full grids 16x16, 32x32, 8x8x8, 4^4 with every axis-aligned box; (c, thorough) 16x16 grid with every {removed,x1,x2} pattern of a 3x3 window; (e) 33124 / 35937 grid points plus 7 or 19 far points, index built with 2, 8 and 20 chunks (chunked construction); (d) miss-run family: a run of m consecutive out-of-box points for every m in 1..600 and every split (step 16) of the totals {63..66,127..130,191..193,255..258,319..321,511..513} into two runs separated by an in-box hit, also for Epsilon 32 and 64. " +
               std::string(prop == 14 ? "Every cell of the universe and cells just outside it / at the largest encodable coordinate are passed to contains(); oracle: membership in the multiset."
                                      : "Every box over the axis values is enumerated; oracle: brute-force filter sorted by the harness's own Morton code, with multiplicity; iteration must end within n+2 steps.") +
